@@ -177,3 +177,99 @@ def parent_map(root):
         for c in ast.iter_child_nodes(n):
             pm[c] = n
     return pm
+
+
+# ---------------------------------------------------------------------------------------------------- polarity-free tests
+_FLIP = {ast.IsNot: ast.Is, ast.NotIn: ast.In, ast.NotEq: ast.Eq, ast.GtE: ast.Lt, ast.Gt: ast.LtE}
+
+
+def canon_ast(test, truth=True):
+    """(expression, truth) with the negations folded into `truth` (see canon)"""
+    while isinstance(test, ast.UnaryOp) and isinstance(test.op, ast.Not):
+        test, truth = test.operand, not truth
+    if isinstance(test, ast.Compare) and len(test.ops) == 1 and type(test.ops[0]) in _FLIP:
+        test = ast.Compare(left=test.left, ops=[_FLIP[type(test.ops[0])]()], comparators=test.comparators)
+        truth = not truth
+    return test, truth
+
+
+def branch_where(ifst, pred):
+    """the statement list of `ifst` executed when pred(<negation-free test>) holds: body, or orelse for a negated test"""
+    t, pos = canon_ast(ifst.test)
+    if pred(t):
+        return ifst.body if pos else ifst.orelse
+    return None
+
+
+def split_if(ifst, pred):
+    """(statements run when the negation-free test holds, statements run when it does not) if pred(<negation-free test>), else None"""
+    t, pos = canon_ast(ifst.test)
+    if pred(t):
+        return (ifst.body, ifst.orelse) if pos else (ifst.orelse, ifst.body)
+    return None
+
+
+def canon(test, truth=True):
+    """(text, truth): `test` evaluating to `truth`, spelled without negation - `not x`/True == `x`/False,
+    `a is not None`/True == `a is None`/False, `a not in b` ~ `a in b`, `!=` ~ `==`, `>=` ~ `<`, `>` ~ `<=`.
+    Rules compare these pairs, so `if c: A else: B` and `if not c: B else: A` look the same to them."""
+    while isinstance(test, ast.UnaryOp) and isinstance(test.op, ast.Not):
+        test, truth = test.operand, not truth
+    if isinstance(test, ast.Compare) and len(test.ops) == 1 and type(test.ops[0]) in _FLIP:
+        test = ast.Compare(left=test.left, ops=[_FLIP[type(test.ops[0])]()], comparators=test.comparators)
+        truth = not truth
+    return norm(test), truth
+
+
+def conjuncts(test, truth=True, leaves=False):
+    """facts established when `test` evaluates to `truth`: canon() of the test itself plus, for `a and b` being true /
+    `a or b` being false, of every operand (recursively); leaves=True keeps only the facts that were not decomposed"""
+    t, tr = test, truth
+    while isinstance(t, ast.UnaryOp) and isinstance(t.op, ast.Not):
+        t, tr = t.operand, not tr
+    if isinstance(t, ast.BoolOp) and ((isinstance(t.op, ast.And) and tr) or (isinstance(t.op, ast.Or) and not tr)):
+        out = [] if leaves else [canon(test, truth)]
+        for v in t.values:
+            out += conjuncts(v, tr, leaves)
+        return out
+    return [canon(test, truth)]
+
+
+def guards_of(pm, node, stop=None):
+    """[(If/While statement, truth)] for every enclosing conditional of `node` (innermost first): truth is True when
+    the node sits in the body, False when it sits in the orelse; the test expression itself is not 'guarded'"""
+    out = []
+    prev, cur = node, pm.get(node)
+    while cur is not None and cur is not stop:
+        if isinstance(cur, (ast.If, ast.While)):
+            if any(prev is x for x in cur.body):
+                out.append((cur, True))
+            elif any(prev is x for x in cur.orelse):
+                out.append((cur, False))
+        prev, cur = cur, pm.get(cur)
+    return out
+
+
+def facts_at(pm, node, stop=None):
+    """set of canon() facts that hold at `node` because of the conditionals around it"""
+    out = set()
+    for st, truth in guards_of(pm, node, stop):
+        out.update(conjuncts(st.test, truth))
+    return out
+
+
+def edge_fact(e):
+    """canon() fact established by taking CFG edge `e` out of a test node (None for other edges)"""
+    if e.src.kind == 'test' and isinstance(getattr(e.src.stmt, 'test', None), ast.AST):
+        k = e.kind if e.kind in ('true', 'false') else getattr(e, 'branch', None)
+        if k in ('true', 'false'):
+            return canon(e.src.stmt.test, k == 'true')
+    return None
+
+
+def edge_facts(e):
+    if e.src.kind == 'test' and isinstance(getattr(e.src.stmt, 'test', None), ast.AST):
+        k = e.kind if e.kind in ('true', 'false') else getattr(e, 'branch', None)
+        if k in ('true', 'false'):
+            return conjuncts(e.src.stmt.test, k == 'true')
+    return []
